@@ -109,3 +109,12 @@ Section Queue.
     - inversion H; auto.
   Qed.
 End Queue.
+
+Arguments queue_sorted {L}.
+Arguments kle {L}.
+Arguments kle_rnd {L}.
+Arguments queue_add_In {L}.
+Arguments queue_add_sorted {L}.
+Arguments fold_queue_add_In {L} rnd {A}.
+Arguments fold_queue_add_sorted {L} rnd {A}.
+Arguments sorted_app_inv {L}.
